@@ -19,7 +19,7 @@ type CaseC07 struct {
 	Map       map[string]interface{} `json:"map"`
 	Steps     []Step                 `json:"steps"`
 	ArraySize int                    `json:"array_size"`
-	Unrelated uint16                 `json:"unrelated_opts,omitempty"` // options that must not matter, see applyUnrelatedOptions
+	Unrelated uint32                 `json:"unrelated_opts,omitempty"` // options that must not matter, see applyUnrelatedOptions
 	Alias     *AliasSpec             `json:"alias,omitempty"`          // one container object gets a second parent in the subject Map
 }
 
